@@ -6,6 +6,7 @@ package dual
 
 /*@
 import provider "github.com/libp2p/go-libp2p-kad-dht/provider"
+immutable field SweepingProvider.cleanupFuncs
 
 role f(p *provider.SweepingProvider) error in (s *SweepingProvider) runOnBoth(f func(*provider.SweepingProvider) error) error
   modifies *
@@ -38,6 +39,7 @@ func (s *SweepingProvider) Close() error
   ghostvar $both bool = false
   modifies *
   ensures [internal-closes-both-first] $both
+  loop 0 invariant -1 <= i && i < len(s.cleanupFuncs)
   ghost at call(runOnBoth): $both = true
   ghost at before call(f): assert($both)
 @*/
